@@ -215,6 +215,35 @@ func c17EnvJSON(data []byte) map[string]any {
 	return env
 }
 
+// c17EnvJSONStream logs the error the token API of encoding/json reports (what --stream is built on).
+func c17EnvJSONStream(data []byte) map[string]any {
+	dec := json.NewDecoder(bytes.NewReader(data))
+	dec.UseNumber()
+	depth := 0
+	for {
+		tok, err := dec.Token()
+		if err != nil {
+			switch e := err.(type) {
+			case *json.SyntaxError:
+				return map[string]any{"err": map[string]any{"k": "syntax", "p": int(e.Offset) - 1}}
+			}
+			if err == io.ErrUnexpectedEOF || err == io.EOF && depth > 0 {
+				return map[string]any{"err": map[string]any{"k": "eof"}}
+			} else if err == io.EOF {
+				return map[string]any{"err": map[string]any{"k": "none"}}
+			}
+			return map[string]any{"err": map[string]any{"k": "other", "msg": err.Error()}}
+		}
+		if d, ok := tok.(json.Delim); ok {
+			if d == '[' || d == '{' {
+				depth++
+			} else {
+				depth--
+			}
+		}
+	}
+}
+
 func c17EnvYAML(data []byte) map[string]any {
 	dec := yaml.NewDecoder(bytes.NewReader(data))
 	for {
@@ -269,6 +298,8 @@ func c17RunOne(c *c17Case, gojqBin, tmp string) map[string]any {
 	switch c.Kind {
 	case "json":
 		rec["env"] = c17EnvJSON(data)
+	case "jsonstream":
+		rec["env"] = c17EnvJSONStream(data)
 	case "yaml":
 		rec["env"] = c17EnvYAML(data)
 	case "query", "lib":
